@@ -2,7 +2,9 @@ package props
 
 import (
 	"context"
+	"encoding/json"
 	"fmt"
+	"os"
 	"strings"
 	"sync"
 	"time"
@@ -166,6 +168,294 @@ func gcConfRun(r *tr.Run, cs gcConfCase) {
 		r.Emit("hung", "what", "consumers")
 		return
 	}
+	time.Sleep(5 * time.Millisecond)
+	r.Emit("end")
+}
+
+// ------------------------------------------------------------------ specification -> implementation: gate schedules
+
+// gcSchedules reads the schedules TLC sampled from GoChannelImpl.tla (bin/gen-gochannel-schedules), by variant.
+func gcSchedules() map[string][][]string {
+	path := os.Getenv("VERIF_GOCHANNEL_SCHEDULES")
+	if path == "" {
+		return nil
+	}
+	b, err := os.ReadFile(path)
+	if err != nil {
+		return nil
+	}
+	var ws map[string][][]string
+	if json.Unmarshal(b, &ws) != nil {
+		return nil
+	}
+	return ws
+}
+
+func gcReplayAll(c *Ctx) {
+	ws := gcSchedules()
+	n := 0
+	type job struct {
+		r       *tr.Run
+		variant string
+		word    []string
+	}
+	var jobs []job
+	for _, v := range []string{"volatile", "persistent", "blocking"} {
+		T := c.Trace("GoChannelImplTrace_" + v)
+		for i, w := range ws[v] {
+			r := T.NewRun("schedule/"+v, nil)
+			r.Key = fmt.Sprintf("schedule/%s/%d", v, i)
+			r.NonTrivial = true
+			jobs = append(jobs, job{r, v, w})
+			n++
+		}
+	}
+	Parallel(len(jobs), func(i int) { gcConfReplay(jobs[i].r, jobs[i].variant, jobs[i].word) })
+	c.AddStat("gochannel_schedules_replayed", n)
+}
+
+// gcConfReplay drives the real GoChannel along one schedule of the specification: the calls are started when the schedule says so and
+// every hook point of the run is gated -- a goroutine that reaches one stays there until the schedule releases it.  Where the code
+// decides for itself (a select, the Go scheduler between two hook points) the run may leave the schedule: every wait is bounded and
+// every action of the harness is a legal move of the environment, so the recorded internal trace is judged like any other.
+func gcConfReplay(r *tr.Run, variant string, word []string) {
+	prefix := UniquePrefix()
+	cfg := gochannel.Config{Persistent: variant == "persistent", BlockPublishUntilSubscriberAck: variant == "blocking"}
+	if variant == "persistent" {
+		cfg.OutputChannelBuffer = 1
+	}
+	g := gochannel.NewGoChannel(cfg, nil)
+	short := func(id string) string { return strings.TrimPrefix(id, prefix) }
+	onHook := func(point string, ids []string) {
+		kind, ok := gcConfHooks[point]
+		if !ok {
+			return
+		}
+		t := ""
+		switch kind {
+		case "pub":
+			t = "pub:p" + strings.TrimPrefix(short(ids[0]), "m")
+		case "subc", "tear":
+			t = kind + ":" + short(ids[0])
+		case "send":
+			t = "send:" + short(ids[0]) + "/" + short(ids[1])
+		case "closer":
+			t = "closer"
+		}
+		r.Emit("hook", "point", point, "t", t)
+	}
+	defer sched.Observe(prefix, onHook)()
+	defer sched.ObserveID(verifhook.Ptr(g), onHook)()
+
+	const step = 90 * time.Millisecond
+	var gmu sync.Mutex
+	gates := map[string]*sched.Gate{} // "<goroutine>|<point>" -> the gate currently installed there
+	freeRun := false
+	park := func(name, point string) {
+		var gt *sched.Gate
+		switch {
+		case strings.HasPrefix(name, "pub:p"):
+			gt = sched.Park(point, prefix+"m"+strings.TrimPrefix(name, "pub:p"))
+		case strings.HasPrefix(name, "subc:"), strings.HasPrefix(name, "tear:"):
+			gt = sched.Park(point, prefix+name[5:])
+		case strings.HasPrefix(name, "send:"):
+			ms := strings.SplitN(name[5:], "/", 2)
+			gt = sched.Park2(point, prefix+ms[0], prefix+ms[1])
+		case name == "closer":
+			gt = sched.Park(point, verifhook.Ptr(g))
+		}
+		gates[name+"|"+point] = gt
+	}
+	for point, kind := range gcConfHooks {
+		switch kind {
+		case "pub":
+			park("pub:p1", point)
+			park("pub:p2", point)
+		case "subc", "tear":
+			park(kind+":s1", point)
+			park(kind+":s2", point)
+		case "send":
+			for _, m := range []string{"m1", "m2"} {
+				for _, s := range []string{"s1", "s2"} {
+					park("send:"+m+"/"+s, point)
+				}
+			}
+		case "closer":
+			park("closer", point)
+		}
+	}
+	releaseAll := func() {
+		gmu.Lock()
+		freeRun = true
+		for _, gt := range gates {
+			gt.Release()
+		}
+		gmu.Unlock()
+	}
+	defer releaseAll()
+	release := func(name, point string) {
+		gmu.Lock()
+		gt := gates[name+"|"+point]
+		gmu.Unlock()
+		if gt == nil || !gt.Arrived(step) {
+			return
+		}
+		gmu.Lock()
+		if !freeRun {
+			park(name, point) // the point may be reached again (a redelivery): a new gate, installed before the goroutine moves on
+		}
+		gmu.Unlock()
+		gt.Release()
+	}
+
+	var wg, cons sync.WaitGroup
+	type subSt struct {
+		cancel context.CancelFunc
+		cmds   chan string
+		called bool
+	}
+	subs := map[string]*subSt{}
+	for _, s := range []string{"s1", "s2"} {
+		subs[s] = &subSt{cmds: make(chan string, 32)}
+	}
+	var cmu sync.Mutex
+	started := map[string]bool{}
+	closeDone := make(chan struct{})
+	closeCalled := false
+	startClose := func() {
+		if closeCalled {
+			return
+		}
+		closeCalled = true
+		go func() { defer close(closeDone); _ = g.Close() }()
+	}
+	for _, w := range word {
+		f := strings.SplitN(w, ":", 3)
+		switch f[0] {
+		case "start":
+			switch f[1] {
+			case "pub":
+				if started[w] {
+					continue
+				}
+				started[w] = true
+				k := strings.TrimPrefix(f[2], "p")
+				wg.Add(1)
+				go func() {
+					defer wg.Done()
+					msg := message.NewMessage(prefix+"m"+k, []byte("x"))
+					err := g.Publish("t", msg)
+					r.Emit("pubend", "p", "p"+k, "ok", err == nil)
+				}()
+			case "sub":
+				name := f[2]
+				st := subs[name]
+				if st.called {
+					continue
+				}
+				st.called = true
+				ctx, cancel := context.WithCancel(verifhook.WithName(context.Background(), prefix+name))
+				cmu.Lock()
+				st.cancel = cancel
+				cmu.Unlock()
+				wg.Add(1)
+				go func() {
+					defer wg.Done()
+					ch, err := g.Subscribe(ctx, "t")
+					if err != nil {
+						return
+					}
+					cons.Add(1)
+					go func() { // the consumer acts on command; once the schedule is over it acknowledges whatever still comes
+						defer cons.Done()
+						var cur *message.Message
+						settle := func(kind string) {
+							if cur == nil {
+								return
+							}
+							r.Emit(kind, "s", name, "m", short(cur.UUID))
+							if kind == "ack" {
+								cur.Ack()
+							} else {
+								cur.Nack()
+							}
+							cur = nil
+						}
+						for cmd := range st.cmds {
+							switch cmd {
+							case "recv":
+								if cur != nil {
+									continue
+								}
+								msg, ok := <-ch
+								if !ok {
+									return
+								}
+								r.Emit("recv", "s", name, "m", short(msg.UUID))
+								cur = msg
+							case "ack", "nack":
+								settle(cmd)
+							}
+						}
+						settle("ack")
+						for msg := range ch {
+							r.Emit("recv", "s", name, "m", short(msg.UUID))
+							cur = msg
+							settle("ack")
+						}
+					}()
+				}()
+			case "close":
+				startClose()
+			}
+			time.Sleep(150 * time.Microsecond) // (the new goroutine gets to its first hook point)
+		case "rel":
+			if i := strings.LastIndex(w, ":"); i > 4 {
+				release(w[4:i], w[i+1:]) // rel:<goroutine>:<hook point>
+			}
+		case "recv", "ack", "nack":
+			select {
+			case subs[f[1]].cmds <- f[0]:
+			default:
+			}
+			time.Sleep(100 * time.Microsecond)
+		case "cancel":
+			cmu.Lock()
+			c := subs[f[1]].cancel
+			cmu.Unlock()
+			if c != nil {
+				r.Emit("cancel", "s", f[1])
+				c()
+			}
+		}
+	}
+	// the schedule is over: all gates open, the consumers acknowledge what still comes, Close is called if it was not
+	releaseAll()
+	for _, st := range subs {
+		close(st.cmds)
+	}
+	if !WaitOrHang(waitWG(&wg)) {
+		r.Emit("hung", "what", "publishers / subscribe")
+		return
+	}
+	time.Sleep(5 * time.Millisecond)
+	startClose()
+	if !WaitOrHang(closeDone) {
+		r.Emit("hung", "what", "Close")
+		return
+	}
+	r.Emit("closeend")
+	if !WaitOrHang(waitWG(&cons)) {
+		r.Emit("hung", "what", "consumers")
+		return
+	}
+	cmu.Lock()
+	for _, st := range subs {
+		if st.cancel != nil {
+			defer st.cancel()
+		}
+	}
+	cmu.Unlock()
 	time.Sleep(5 * time.Millisecond)
 	r.Emit("end")
 }
